@@ -28,6 +28,18 @@ Part B (association proxies): list-of-str, set-of-str, dict, list-of-objects (th
 association object) and proxy-of-proxy collections in lock-step with a plain
 list/set/dict of the proxied values, then the association rows after commit.
 
+Bulk replacement (added after the second seeded-change round): ``parent.proxy = <iterable>``
+for all five proxy shapes - any subset of the current values, 0..2 fresh ones, fresh and/or
+kept values repeated, as list / tuple / generator / iterator / set / frozenset / dict, the
+proxy itself and copies of it - judged on contents + len, on removing a repeated value
+once, and on the association rows; ``slide.bullets = <list>`` for the four ordering_list
+variants (sub-sequences and permutations of the members plus fresh ones at either end,
+the collection itself, a copy): contents, documented position rule (fresh members get
+their index, existing ones keep theirs unless reorder_on_append), reorder(), persistence.
+Relationship attributes accept list-likes only, so no tuples/generators there.
+Candidate defect found by it: ``assocproxy-set-assign-consumes-one-shot-iterable``
+(``parent.set_proxy = (v for v in ...)`` leaves the set empty; patch in selftest/C50).
+
 Guards (documented / by-design behaviour not demanded):
 * ordering_list: ``append`` of an entity that already has a position keeps it unless
   ``reorder_on_append`` (documented) -> only fresh entities are appended, existing ones
@@ -59,7 +71,7 @@ META = {
     "soft_s": {"quick": 60, "thorough": 900},
     "exhaustive": {"quick": True, "thorough": True},
     "require": ["ol_cases", "position_checks", "persist_checks", "proxy_list_cases", "proxy_set_cases",
-                "proxy_dict_cases", "proxy_row_checks", "standalone_cases", "seq_steps"],
+                "proxy_dict_cases", "proxy_row_checks", "standalone_cases", "seq_steps", "assign_cases"],
     "assumptions": ["builtin list/set/dict are the reference models"],
 }
 
@@ -754,6 +766,7 @@ def run(ctx):
                 if ctx.mine(idx):
                     ol_single(env, variant, n, spec,
                               persist=(idx // ctx.nshards) % 7 == 0 or spec[0] in ("swap", "setslice_members"))
+    idx = assign_ordering_lists(env, ctx, idx)
     ctx.count("exhaustive_ol_done")
     nseq = ctx.pick({"quick": 60, "thorough": 1500})
     length = ctx.pick({"quick": 12, "thorough": 25})
@@ -784,6 +797,7 @@ def run(ctx):
             idx += 1
             if ctx.mine(idx):
                 px_single(px, "PD", n, spec, rows=(idx // ctx.nshards) % 5 == 0)
+    idx = assign_proxies(px, ctx, idx)
     ctx.count("exhaustive_proxy_done")
     flavours = ("PL", "PP", "PO", "PS", "PD")
     for k in range(nseq):
@@ -791,6 +805,189 @@ def run(ctx):
             break
         px_sequence(px, flavours[k % len(flavours)], length, ctx.rng)
     px.dispose()
+
+
+# --------------------------------------------------------------------------
+# bulk replacement (attribute assignment) of proxies and ordering lists
+# --------------------------------------------------------------------------
+def _container(kind, values):
+    if kind == "list":
+        return list(values)
+    if kind == "tuple":
+        return tuple(values)
+    if kind == "gen":
+        return (v for v in list(values))
+    if kind == "iter":
+        return iter(list(values))
+    if kind == "set":
+        return set(values)
+    if kind == "frozenset":
+        return frozenset(values)
+    raise AssertionError(kind)
+
+
+def assign_proxies(px, ctx, idx):
+    """``parent.proxy = <iterable>`` for every proxy flavour: the iterable keeps any subset of
+    the current values, adds 0..2 fresh ones, repeats fresh and/or kept values, and comes as
+    list / tuple / generator / iterator / set / frozenset / dict, as the proxy itself and as
+    a copy of it.  Afterwards the proxy equals list(iterable) / set(iterable) /
+    dict(mapping) (contents and len), removing one repeated value once behaves like the
+    builtin, and the association rows match."""
+    from sqlalchemy import orm
+
+    attr = {"PL": "names", "PP": "kwnames", "PO": "kws", "PS": "tags", "PD": "vals"}
+    for flavour in ("PL", "PP", "PO", "PS", "PD"):
+        for n in range(0, 4):
+            probe = px_fresh(px, flavour, n)
+            fam = probe[4]
+            ndistinct = len(list(dict.fromkeys(probe[2]))) if fam != "dict" else len(probe[2])
+            containers = {"list": ("list", "tuple", "gen", "iter"),
+                          "set": ("list", "tuple", "gen", "iter", "set", "frozenset"),
+                          "dict": ("dict",)}[fam]
+            combos = [(mask, nf, dup, cont) for mask in range(1 << ndistinct) for nf in range(3)
+                      for dup in ("none", "fresh", "kept", "both") for cont in containers]
+            combos += [(0, 0, "none", "self"), (0, 0, "none", "copy"), (0, 0, "none", "copy-reversed")]
+            for mask, nf, dup, cont in combos:
+                idx += 1
+                if not ctx.mine(idx):
+                    continue
+                if fam == "dict" and dup != "none":
+                    continue  # a mapping cannot repeat a key
+                par, proxy, model, newval, fam = px_fresh(px, flavour, n)
+                px.created = 0
+                if fam == "dict":
+                    keys = list(model)
+                    new = {k: model[k] for i, k in enumerate(keys) if mask >> i & 1}
+                    for i, k in enumerate(keys):
+                        if mask >> i & 1 and i % 2:
+                            new[k] = newval()  # kept key, new value
+                    from vf.props.c38 import KEYS
+
+                    for k in [k for k in KEYS if k not in model][:nf]:
+                        new[k] = newval()
+                    rhs, want = dict(new), dict(new)
+                else:
+                    distinct = list(dict.fromkeys(model))
+                    kept = [v for i, v in enumerate(distinct) if mask >> i & 1]
+                    fresh = [newval() for _ in range(nf)]
+                    seq = kept + fresh
+                    if dup in ("fresh", "both") and fresh:
+                        seq = seq + [fresh[0]] + fresh[-1:]
+                    if dup in ("kept", "both") and kept:
+                        seq = [kept[-1]] + seq + [kept[0]]
+                    if cont == "self":
+                        rhs, seq = proxy, list(model)
+                    elif cont == "copy":
+                        rhs = seq = list(proxy)
+                    elif cont == "copy-reversed":
+                        seq = list(proxy)[::-1]
+                        rhs = list(seq)
+                    else:
+                        rhs = _container(cont, seq)
+                    want = set(seq) if fam == "set" else list(seq)
+                    if fam == "list" and cont in ("set", "frozenset"):
+                        continue
+                desc = {"assign": flavour, "n": n, "mask": mask, "fresh": nf, "dup": dup, "container": cont}
+                ctx.count("assign_cases")
+                problem = None
+                try:
+                    setattr(par, attr[flavour], rhs)
+                except Exception as e:
+                    problem = "assignment raised %s: %s" % (type(e).__name__, str(e)[:80])
+                if problem is None and not px_contents_same(fam, proxy, want):
+                    problem = "builtin %r (len %d) vs proxy %r (len %d)" % (
+                        want, len(want), px_contents(fam, proxy), len(proxy))
+                if problem is None and fam != "dict" and dup != "none" and len(want):
+                    # removing a repeated value once
+                    v = seq[-1]
+                    if fam == "set":
+                        want.discard(v)
+                        proxy.discard(v)
+                    else:
+                        want.remove(v)
+                        proxy.remove(v)
+                    if not px_contents_same(fam, proxy, want):
+                        problem = "after removing %r once: builtin %r vs proxy %r" % (v, want, px_contents(fam, proxy))
+                if problem:
+                    mech = "assocproxy-%s-assign-contents" % fam
+                    if fam == "set" and cont in ("gen", "iter"):
+                        # _AssociationSet._bulk_replace walks the assigned iterable three times
+                        mech = "assocproxy-set-assign-consumes-one-shot-iterable"
+                    ctx.violation(mech,
+                                  "%s = %s on %r: %s" % (attr[flavour], desc, model, problem),
+                                  {"case": desc, "initial": repr(model), "problem": problem})
+                elif (idx // ctx.nshards) % 2 == 0 or dup != "none":
+                    with orm.Session(px.eng, expire_on_commit=False) as sess:
+                        px_rows(px, sess, flavour, fam, par, want, desc)
+                ctx.case(desc, nontrivial=True)
+    return idx
+
+
+def assign_ordering_lists(env, ctx, idx):
+    """``slide.bullets = <iterable>``: any sub-sequence / permutation of the current members
+    plus 0..2 fresh ones, as a list (relationship attributes reject other iterables by
+    contract), the collection itself and a copy.  Contents equal list(iterable); a fresh member gets the position of its
+    index, an existing one keeps its position unless reorder_on_append (documented);
+    after reorder() positions equal indices and the order persists."""
+    from sqlalchemy import orm
+
+    for variant in env.variants:
+        for n in range(0, 4):
+            perms = []
+            for mask in range(1 << n):
+                kept = [i for i in range(n) if mask >> i & 1]
+                perms.append(kept)
+                if len(kept) > 1:
+                    perms.append(kept[::-1])
+            combos = [(kept, nf, where, cont) for kept in perms for nf in range(3)
+                      for where in ("back", "front") for cont in ("list",)  # (a relationship accepts list-likes only)
+                      if not (nf == 0 and where == "front")]
+            combos += [(None, 0, "back", "self"), (None, 0, "back", "copy")]
+            for kept, nf, where, cont in combos:
+                idx += 1
+                if not ctx.mine(idx):
+                    continue
+                slide, coll, model, mk, f = env.fresh(variant, n)
+                old_pos = {id(b): b.position for b in model}
+                if cont == "self":
+                    rhs, seq = coll, list(model)
+                elif cont == "copy":
+                    rhs = seq = list(coll)
+                else:
+                    fresh = [mk() for _ in range(nf)]
+                    seq = [model[i] for i in kept]
+                    seq = fresh + seq if where == "front" else seq + fresh
+                    rhs = _container(cont, seq)
+                desc = {"assign": variant, "n": n, "kept": kept, "fresh": nf, "where": where, "container": cont}
+                ctx.count("assign_cases")
+                ctx.count("ol_cases")
+                slide.bullets = rhs
+                coll = slide.bullets
+                roa = variant == "olr"
+                problem = None
+                if len(coll) != len(seq) or any(a is not b for a, b in zip(coll, seq)):
+                    problem = "contents %r, assigned %r" % (list(coll), seq)
+                else:
+                    ctx.count("position_checks")
+                    for i, b in enumerate(coll):
+                        exp = f(i) if (roa or id(b) not in old_pos or cont == "self") else old_pos[id(b)]
+                        if cont == "self":
+                            exp = old_pos[id(b)]
+                        if b.position != exp:
+                            problem = "position of %r at index %d is %r, expected %r" % (b, i, b.position, exp)
+                            break
+                if problem is None:
+                    coll.reorder()
+                    if not positions_ok(coll, f):
+                        problem = "after reorder(): %r" % (list(coll),)
+                if problem:
+                    ctx.violation("orderinglist-assign", "%s bullets = %s: %s" % (variant, desc, problem),
+                                  {"case": desc, "problem": problem})
+                elif (idx // ctx.nshards) % 3 == 0:
+                    with orm.Session(env.eng, expire_on_commit=False) as sess:
+                        ol_persist(env, sess, variant, slide, slide.bullets, f, desc)
+                ctx.case(desc, nontrivial=True)
+    return idx
 
 
 def _px_slice_specs(ctx):
